@@ -8,6 +8,11 @@ import NurbsVerif.Lemmas.InsertObjExamples
 import NurbsVerif.Lemmas.KnotRowsRemIns
 import NurbsVerif.Lemmas.KnotRowsRemOne
 import NurbsVerif.Lemmas.UniqueExample
+import NurbsVerif.Lemmas.UniqueTensorExample
+import NurbsVerif.Lemmas.UniqueVolRows
+import NurbsVerif.Lemmas.UniqueVolObjRows
+import NurbsVerif.Lemmas.UniqueActive
+import NurbsVerif.Lemmas.UniqueTensorObjKnots
 
 /-!
 # C06  Removing a removable knot is exact and inverts insertion
@@ -23,9 +28,14 @@ library computes for the removal (span `k + r`, multiplicity `s + r`), the objec
 for curves, surfaces and volumes (one requested direction per call), and equality of evaluated
 points; and (section (U), curves) "WHENEVER REMOVABLE AT ALL": control points over a knot vector are unique, so a
 knot that can be taken out without changing the curve – however the curve was produced – is taken out exactly.
-(and, per direction, surfaces whose iso-curves are all removable).
-Not proved: insertion in several directions followed by removal in several directions; "removable at all" for
-volumes and at object level (`removeKnot` on a surface / volume `Shape`).
+(and, per direction, surfaces whose iso-curves are all removable); and (section (T)) the control net of a B-spline
+SURFACE / VOLUME is unique (tensor-product linear independence), so a knot that is removable from the surface /
+volume AS A SURFACE / VOLUME is removable from every iso-curve and is removed exactly – net level (`mapSurfU/V`,
+`mapVol`, and the rows branch `mapVolRows` the code runs on volumes), any count `t ≤ r`, and object level
+(`removeKnot` on a surface / volume `Shape` with the library's own span / multiplicity searches); knot insertion
+preserves `AllActive` (the activity hypothesis may be checked on the reduced knot vector).
+Not proved: insertion in several directions followed by removal in several directions; several directions in one
+`removeKnot` call of the "removable at all" form.
 Proof idea (Lemmas/RemoveInv*.lean): in removal step `t` the left sweep solves
 `Q_i = α_i P_i + (1-α_i) P_{i-1}` for `P_i`, the right sweep for `P_{j-1}`; the removal alphas on
 the refined knots are the insertion alphas on the knots with one copy less; the removability test
@@ -782,5 +792,432 @@ example : mapSurfV 2 9 (UniqueEx.Ph ++ UniqueEx.Ph)
 /-- the activity hypothesis fails exactly when a basis function vanishes on the domain: a knot of
     multiplicity `p + 2` -/
 example : ¬ AllActive 1 4 (fnOf ([0,0,1/2,1/2,1/2,1,1] : List ℚ)) := by decide +kernel
+
+/-! ## (T) Tensor products: uniqueness of control nets of surfaces and volumes, and "whenever removable at all"
+for surfaces and volumes – as a SURFACE / VOLUME, per direction, any count `t ≤ r`, and at object level
+
+`S(u,v) = Σ_a Nu_a(u) · C_a(v)`: for fixed `v` a curve in `u` whose control values are the points of the iso-curves;
+global linear independence of the u-basis on its domain (from the local independence on a non-empty span per index,
+section (U)) separates the iso-curves, and curve uniqueness finishes.  Volumes: two such steps.
+
+`SurfRemovableU pu pv d V Uv P Q ub r s k su sv` (Lemmas/UniqueTensorRemove.lean; every field explicit): the
+u-direction knot vector `V` of the well-formed `su × sv` surface `(V, Uv, P)` holds `ub` at the positions
+`k-s+1 .. k+r`, `1 ≤ r`, `r + s ≤ pu ≤ k`, `k + r < su`; no basis function of either direction vanishes on its whole
+domain; and SOME `(su - r) × sv` net `Q` over `V` with `r` copies of `ub` taken out (same v direction) has the same
+SURFACE points on the half-open domain.  `SurfRemovableV`, `VolRemovableU/V/W` (Lemmas/UniqueVolRemove.lean):
+likewise.  `SurfRemovableObj d S T dir ub r tol` / `VolRemovableObj` (Lemmas/UniqueTensorObj.lean, UniqueVolObj.lean):
+the same on `Shape`s, stated from the side of the witness `T` (the knot vectors of `S` are those of `T` with `ub`
+inserted `r` times at the span the library finds; `RoundOk T dir ub r tol`). -/
+
+/-- **The B-spline basis is linearly independent on its domain**: sorted knots, `n ≥ p + 1`, no basis function
+    vanishing on the whole domain.  If `Σ_r N_{k-p+r,p}(u) · c_{k-p+r}` (`k` = the span `find_span_linear` returns,
+    the `N` = what A2.2 returns) is zero at every `u` of the half-open domain, every `c_i`, `i < n`, is zero. -/
+theorem basis_functions_independent_on_domain (p n : ℕ) (U : ℕ → K) (hm : Monotone U) (hpn : p + 1 ≤ n)
+    (hact : AllActive p n U) (c : ℕ → K)
+    (h : ∀ u, U p ≤ u → u < U n →
+      ∑ r ∈ Finset.range (p+1), (basisFuns p U (findSpanLinear p U n u) u).getD r 0 * c (findSpanLinear p U n u - p + r) = 0) :
+    ∀ i, i < n → c i = 0 :=
+  basis_global_lin_indep p n U hm hpn hact c h
+
+/-- **The control net of a B-spline surface is unique**: two `su × sv` nets of `d`-dimensional points over the same
+    well-formed knot vectors (no basis function of either direction vanishing on its whole domain) whose surfaces
+    have the same point at every parameter pair of the half-open domain are equal. -/
+theorem surface_control_net_unique (pu pv d su sv : ℕ) (Uu Uv : List K) (P P' : List (List K))
+    (hu : KvWF pu Uu su) (hv : KvWF pv Uv sv)
+    (hactu : AllActive pu su (fnOf Uu)) (hactv : AllActive pv sv (fnOf Uv))
+    (hlen : P.length = su * sv) (hlen' : P'.length = su * sv) (hP : NetOk d P) (hP' : NetOk d P')
+    (h : ∀ u v, fnOf Uu pu ≤ u → u < fnOf Uu su → fnOf Uv pv ≤ v → v < fnOf Uv sv → ∀ j,
+      (surfacePoint pu pv (fnOf Uu) (fnOf Uv) su sv P u v).getD j 0
+        = (surfacePoint pu pv (fnOf Uu) (fnOf Uv) su sv P' u v).getD j 0) : P = P' :=
+  surface_net_unique pu pv d (fnOf Uu) (fnOf Uv) su sv P P' hu.mono hv.mono hu.pn hv.pn hactu hactv hlen hlen' hP hP' h
+
+/-- **The control net of a B-spline volume is unique.** -/
+theorem volume_control_net_unique (pu pv pw d su sv sw : ℕ) (Uu Uv Uw : List K) (P P' : List (List K))
+    (hu : KvWF pu Uu su) (hv : KvWF pv Uv sv) (hw : KvWF pw Uw sw)
+    (hactu : AllActive pu su (fnOf Uu)) (hactv : AllActive pv sv (fnOf Uv)) (hactw : AllActive pw sw (fnOf Uw))
+    (hlen : P.length = su * sv * sw) (hlen' : P'.length = su * sv * sw) (hP : NetOk d P) (hP' : NetOk d P')
+    (h : ∀ u v w, fnOf Uu pu ≤ u → u < fnOf Uu su → fnOf Uv pv ≤ v → v < fnOf Uv sv → fnOf Uw pw ≤ w → w < fnOf Uw sw →
+      ∀ j, (volumePoint pu pv pw (fnOf Uu) (fnOf Uv) (fnOf Uw) su sv sw P u v w).getD j 0
+        = (volumePoint pu pv pw (fnOf Uu) (fnOf Uv) (fnOf Uw) su sv sw P' u v w).getD j 0) : P = P' :=
+  volume_net_unique pu pv pw d (fnOf Uu) (fnOf Uv) (fnOf Uw) su sv sw P P' hu.mono hv.mono hw.mono hu.pn hv.pn hw.pn
+    hactu hactv hactw hlen hlen' hP hP' h
+
+/-- **… on objects**: two well-formed surface `Shape`s with the same degrees, knot vectors and sizes and the same
+    points on the half-open domain have the same control net. -/
+theorem surface_object_control_net_unique (d : ℕ) (S S' : Shape K) (hS : SurfWF d S) (hS' : SurfWF d S')
+    (hdegs : S'.degs = S.degs) (hkvs : S'.kvs = S.kvs) (hsizes : S'.sizes = S.sizes)
+    (hact0 : AllActive (S.deg 0) (S.size 0) (fnOf (S.kv 0))) (hact1 : AllActive (S.deg 1) (S.size 1) (fnOf (S.kv 1)))
+    (h : ∀ u v, fnOf (S.kv 0) (S.deg 0) ≤ u → u < fnOf (S.kv 0) (S.size 0) →
+      fnOf (S.kv 1) (S.deg 1) ≤ v → v < fnOf (S.kv 1) (S.size 1) → ∀ j,
+      (surfEval S u v).getD j 0 = (surfEval S' u v).getD j 0) : S.net = S'.net :=
+  surfShape_net_unique d S S' hS hS' hdegs hkvs hsizes hact0 hact1 h
+
+/-- **… volume objects.** -/
+theorem volume_object_control_net_unique (d : ℕ) (S S' : Shape K) (hS : VolWF d S) (hS' : VolWF d S')
+    (hdegs : S'.degs = S.degs) (hkvs : S'.kvs = S.kvs) (hsizes : S'.sizes = S.sizes)
+    (hact0 : AllActive (S.deg 0) (S.size 0) (fnOf (S.kv 0))) (hact1 : AllActive (S.deg 1) (S.size 1) (fnOf (S.kv 1)))
+    (hact2 : AllActive (S.deg 2) (S.size 2) (fnOf (S.kv 2)))
+    (h : ∀ u v w, fnOf (S.kv 0) (S.deg 0) ≤ u → u < fnOf (S.kv 0) (S.size 0) →
+      fnOf (S.kv 1) (S.deg 1) ≤ v → v < fnOf (S.kv 1) (S.size 1) →
+      fnOf (S.kv 2) (S.deg 2) ≤ w → w < fnOf (S.kv 2) (S.size 2) → ∀ j,
+      (volEval S u v w).getD j 0 = (volEval S' u v w).getD j 0) : S.net = S'.net :=
+  volShape_net_unique d S S' hS hS' hdegs hkvs hsizes hact0 hact1 hact2 h
+
+/-! ### removable from the surface ⇒ removable from every iso-curve ⇒ removed exactly -/
+
+/-- **The iso-curve points are determined by the surface points** (fixed `u`, coordinate `j`): two surfaces with the
+    same v direction – their u directions (degree, knots, size) may differ – whose points agree at every `v` of the
+    half-open v-domain have, column by column (iso-curves `v = b`), the same iso-curve point at `u`. -/
+theorem surface_isocurve_points_determined (pu pu' pv : ℕ) (Uu Uu' Uv : ℕ → K) (su su' sv : ℕ) (P P' : List (List K))
+    (d j : ℕ) (u : K) (hmv : Monotone Uv) (hpnv : pv + 1 ≤ sv) (hactv : AllActive pv sv Uv)
+    (hpnu : pu + 1 ≤ su) (hpnu' : pu' + 1 ≤ su')
+    (hlen : P.length = su * sv) (hlen' : P'.length = su' * sv) (hP : NetOk d P) (hP' : NetOk d P')
+    (h : ∀ v, Uv pv ≤ v → v < Uv sv →
+      (surfacePoint pu pv Uu Uv su sv P u v).getD j 0 = (surfacePoint pu' pv Uu' Uv su' sv P' u v).getD j 0) :
+    ∀ b, b < sv → (curvePoint pu Uu ((List.range su).map (fun a => ptsGet P (b + sv * a))) u).getD j 0
+      = (curvePoint pu' Uu' ((List.range su').map (fun a => ptsGet P' (b + sv * a))) u).getD j 0 :=
+  surface_cols_determined pu pu' pv Uu Uu' Uv su su' sv P P' d j u hmv hpnv hactv hpnu hpnu' hlen hlen' hP hP' h
+
+/-- **A u-direction knot that is removable from the SURFACE is removable from every iso-curve** `v = y` (column `y`
+    of the net, gathered as `operations.remove_knot` gathers it), witnessed by column `y` of the witness net. -/
+theorem surface_u_removable_isocurves_removable (pu pv d : ℕ) (V Uv : List K) (P Q : List (List K)) (ub : K)
+    (r s k su sv : ℕ) (h : SurfRemovableU pu pv d V Uv P Q ub r s k su sv) (y : ℕ) (hy : y < sv) :
+    RemovableKnot pu d V ((List.range su).map (fun u => ptsGet P (y + sv * u)))
+      ((List.range (su - r)).map (fun u => ptsGet Q (y + sv * u))) ub r s k :=
+  h.isocurves y hy
+
+/-- **… v direction**: every row (iso-curve `u = x`). -/
+theorem surface_v_removable_isocurves_removable (pu pv d : ℕ) (Uu V : List K) (P Q : List (List K)) (ub : K)
+    (r s k su sv : ℕ) (h : SurfRemovableV pu pv d Uu V P Q ub r s k su sv) (x : ℕ) (hx : x < su) :
+    RemovableKnot pv d V ((List.range sv).map (fun v => ptsGet P (v + sv * x)))
+      ((List.range (sv - r)).map (fun v => ptsGet Q (v + (sv - r) * x))) ub r s k :=
+  h.isocurves x hx
+
+/-- **Surfaces, u direction, whenever removable at all (as a surface)**: the gather / A5.8 on every column / scatter
+    of `operations.remove_knot` returns EXACTLY the witness net and the reduced size – any tolerance `tol2 ≥ 0`. -/
+theorem surface_u_remove_knot_removable_from_surface (pu pv d : ℕ) (V Uv : List K) (P Q : List (List K)) (ub : K)
+    (r s k su sv : ℕ) (tol2 : K) (h : SurfRemovableU pu pv d V Uv P Q ub r s k su sv) (htol : 0 ≤ tol2) :
+    mapSurfU su sv P (fun c => knotRemoval pu (fnOf V) c ub r (s + r) (k + r) tol2) = (Q, su - r) :=
+  h.exact tol2 htol
+
+/-- **… v direction.** -/
+theorem surface_v_remove_knot_removable_from_surface (pu pv d : ℕ) (Uu V : List K) (P Q : List (List K)) (ub : K)
+    (r s k su sv : ℕ) (tol2 : K) (h : SurfRemovableV pu pv d Uu V P Q ub r s k su sv) (htol : 0 ≤ tol2) :
+    mapSurfV su sv P (fun c => knotRemoval pv (fnOf V) c ub r (s + r) (k + r) tol2) = (Q, sv - r) :=
+  h.exact tol2 htol
+
+/-- **Surfaces, `t ≤ r` removals, u direction**: when every column is a removable curve, removing `t` of the `r`
+    removable copies gives exactly the net and size that `r - t` insertions of `ub` into the witness net give. -/
+theorem surface_u_remove_removable_knot_t (p d : ℕ) (V : List K) (P Q : List (List K)) (ub : K) (r t s k su sv : ℕ)
+    (tol2 : K) (hsv : 0 < sv)
+    (h : ∀ y, y < sv → RemovableKnot p d V ((List.range su).map (fun u => ptsGet P (y + sv * u)))
+      ((List.range (su - r)).map (fun u => ptsGet Q (y + sv * u))) ub r s k)
+    (ht1 : 1 ≤ t) (htr : t ≤ r) (htol : 0 ≤ tol2) :
+    mapSurfU su sv P (fun c => knotRemoval p (fnOf V) c ub t (s + r) (k + r) tol2)
+      = mapSurfU (su - r) sv Q (fun c => knotInsertion p (fnOf (knotRemovalKv V (k + r) r)) c ub (r - t) s k) :=
+  surfU_removable_t p d V P Q ub r t s k su sv tol2 hsv h ht1 htr htol
+
+/-- **… v direction.** -/
+theorem surface_v_remove_removable_knot_t (p d : ℕ) (V : List K) (P Q : List (List K)) (ub : K) (r t s k su sv : ℕ)
+    (tol2 : K) (hsu : 0 < su)
+    (h : ∀ x, x < su → RemovableKnot p d V ((List.range sv).map (fun v => ptsGet P (v + sv * x)))
+      ((List.range (sv - r)).map (fun v => ptsGet Q (v + (sv - r) * x))) ub r s k)
+    (ht1 : 1 ≤ t) (htr : t ≤ r) (htol : 0 ≤ tol2) :
+    mapSurfV su sv P (fun c => knotRemoval p (fnOf V) c ub t (s + r) (k + r) tol2)
+      = mapSurfV su (sv - r) Q (fun c => knotInsertion p (fnOf (knotRemovalKv V (k + r) r)) c ub (r - t) s k) :=
+  surfV_removable_t p d V P Q ub r t s k su sv tol2 hsu h ht1 htr htol
+
+/-! ### volumes (layout `v + sv*(u + su*w)`) -/
+
+/-- **Volumes, u direction, removable at all**: if every iso-curve along u (`v = y, w = z`, gathered as
+    `operations.remove_knot` gathers it) is a curve from which `ub` is removable `r` times, witnessed by the
+    corresponding iso-curve of a net `Q` of size `(su - r) × sv × sw`, then the per-iso-curve gather / A5.8 / scatter
+    (`mapVol 0`) returns exactly `Q` and the u-size `su - r`; and `t ≤ r` removals return what `r - t` insertions into
+    `Q` give. -/
+theorem volume_u_remove_removable_knot (p d : ℕ) (V : List K) (P Q : List (List K)) (ub : K) (r t s k su sv sw : ℕ)
+    (tol2 : K) (hsv : 0 < sv) (hsw : 0 < sw) (hlenQ : Q.length = (su - r) * sv * sw)
+    (h : ∀ y z, y < sv → z < sw → RemovableKnot p d V ((List.range su).map (fun u => ptsGet P (y + sv * (u + su * z))))
+      ((List.range (su - r)).map (fun u => ptsGet Q (y + sv * (u + (su - r) * z)))) ub r s k)
+    (ht1 : 1 ≤ t) (htr : t ≤ r) (htol : 0 ≤ tol2) :
+    mapVol 0 su sv sw P (fun c => knotRemoval p (fnOf V) c ub r (s + r) (k + r) tol2) = (Q, su - r) ∧
+    mapVol 0 su sv sw P (fun c => knotRemoval p (fnOf V) c ub t (s + r) (k + r) tol2)
+      = mapVol 0 (su - r) sv sw Q (fun c => knotInsertion p (fnOf (knotRemovalKv V (k + r) r)) c ub (r - t) s k) :=
+  ⟨volU_removable p d V P Q ub r s k su sv sw tol2 hsv hsw hlenQ h htol,
+   volU_removable_t p d V P Q ub r s k su sv sw tol2 t hsv hsw h ht1 htr htol⟩
+
+/-- **Volumes, v direction, removable at all** (iso-curves `u = x, w = z`; `Q` of size `su × (sv - r) × sw`). -/
+theorem volume_v_remove_removable_knot (p d : ℕ) (V : List K) (P Q : List (List K)) (ub : K) (r t s k su sv sw : ℕ)
+    (tol2 : K) (hsu : 0 < su) (hsw : 0 < sw) (hlenQ : Q.length = su * (sv - r) * sw)
+    (h : ∀ x z, x < su → z < sw → RemovableKnot p d V ((List.range sv).map (fun v => ptsGet P (v + sv * (x + su * z))))
+      ((List.range (sv - r)).map (fun v => ptsGet Q (v + (sv - r) * (x + su * z)))) ub r s k)
+    (ht1 : 1 ≤ t) (htr : t ≤ r) (htol : 0 ≤ tol2) :
+    mapVol 1 su sv sw P (fun c => knotRemoval p (fnOf V) c ub r (s + r) (k + r) tol2) = (Q, sv - r) ∧
+    mapVol 1 su sv sw P (fun c => knotRemoval p (fnOf V) c ub t (s + r) (k + r) tol2)
+      = mapVol 1 su (sv - r) sw Q (fun c => knotInsertion p (fnOf (knotRemovalKv V (k + r) r)) c ub (r - t) s k) :=
+  ⟨volV_removable p d V P Q ub r s k su sv sw tol2 hsu hsw hlenQ h htol,
+   volV_removable_t p d V P Q ub r s k su sv sw tol2 t hsu hsw h ht1 htr htol⟩
+
+/-- **Volumes, w direction, removable at all** (iso-curves `u = x, v = y`; `Q` of size `su × sv × (sw - r)`). -/
+theorem volume_w_remove_removable_knot (p d : ℕ) (V : List K) (P Q : List (List K)) (ub : K) (r t s k su sv sw : ℕ)
+    (tol2 : K) (hsu : 0 < su) (hsv : 0 < sv) (hlenQ : Q.length = su * sv * (sw - r))
+    (h : ∀ x y, x < su → y < sv → RemovableKnot p d V ((List.range sw).map (fun w => ptsGet P (y + sv * (x + su * w))))
+      ((List.range (sw - r)).map (fun w => ptsGet Q (y + sv * (x + su * w)))) ub r s k)
+    (ht1 : 1 ≤ t) (htr : t ≤ r) (htol : 0 ≤ tol2) :
+    mapVol 2 su sv sw P (fun c => knotRemoval p (fnOf V) c ub r (s + r) (k + r) tol2) = (Q, sw - r) ∧
+    mapVol 2 su sv sw P (fun c => knotRemoval p (fnOf V) c ub t (s + r) (k + r) tol2)
+      = mapVol 2 su sv (sw - r) Q (fun c => knotInsertion p (fnOf (knotRemovalKv V (k + r) r)) c ub (r - t) s k) :=
+  ⟨volW_removable p d V P Q ub r s k su sv sw tol2 hsu hsv hlenQ h htol,
+   volW_removable_t p d V P Q ub r s k su sv sw tol2 t hsu hsv h ht1 htr htol⟩
+
+/-- **A removable knot passes the removability test of every removal step** (A5.8 called as the library calls it,
+    any tolerance `tol2 ≥ 0`, the first `t ≤ r` steps): the hypothesis `Rows.AllRemovable` of section (R) holds for
+    every removable iso-curve. -/
+theorem removable_knot_passes_every_test (p d : ℕ) (V : List K) (Ph Q : List (List K)) (ub : K) (r t s k : ℕ) (tol2 : K)
+    (h : RemovableKnot p d V Ph Q ub r s k) (htr : t ≤ r) (htol : 0 ≤ tol2) :
+    Rows.AllRemovable p (fnOf V) Ph ub t (s + r) (k + r) tol2 :=
+  h.allRemovable t htr tol2 htol
+
+/-- **Volumes, AS THE CODE COMPUTES IT** (gather / ONE call of the list-of-rows branch of `helpers.knot_removal` –
+    one removability flag per step, from the first iso-curve – / scatter): when every iso-curve of the direction is
+    removable, the rows branch returns what the per-iso-curve model returns, for every count `t ≤ r`, in each of the
+    three directions. -/
+theorem volume_rows_remove_removable_knot (p d : ℕ) (V : List K) (P Q : List (List K)) (ub : K) (r t s k su sv sw : ℕ)
+    (tol2 : K) (hsu : 0 < su) (hsv : 0 < sv) (hsw : 0 < sw) (htr : t ≤ r) (hrs : r + s ≤ p) (hpk : p ≤ k) (htol : 0 ≤ tol2) :
+    ((∀ y z, y < sv → z < sw → RemovableKnot p d V ((List.range su).map (fun u => ptsGet P (y + sv * (u + su * z))))
+        ((List.range (su - r)).map (fun u => ptsGet Q (y + sv * (u + (su - r) * z)))) ub r s k) → k + r < su →
+      mapVolRows 0 su sv sw P (fun R => knotRemovalRows p (fnOf V) R ub t (s + r) (k + r) tol2)
+        = mapVol 0 su sv sw P (fun c => knotRemoval p (fnOf V) c ub t (s + r) (k + r) tol2)) ∧
+    ((∀ x z, x < su → z < sw → RemovableKnot p d V ((List.range sv).map (fun v => ptsGet P (v + sv * (x + su * z))))
+        ((List.range (sv - r)).map (fun v => ptsGet Q (v + (sv - r) * (x + su * z)))) ub r s k) → k + r < sv →
+      mapVolRows 1 su sv sw P (fun R => knotRemovalRows p (fnOf V) R ub t (s + r) (k + r) tol2)
+        = mapVol 1 su sv sw P (fun c => knotRemoval p (fnOf V) c ub t (s + r) (k + r) tol2)) ∧
+    ((∀ x y, x < su → y < sv → RemovableKnot p d V ((List.range sw).map (fun w => ptsGet P (y + sv * (x + su * w))))
+        ((List.range (sw - r)).map (fun w => ptsGet Q (y + sv * (x + su * w)))) ub r s k) → k + r < sw →
+      mapVolRows 2 su sv sw P (fun R => knotRemovalRows p (fnOf V) R ub t (s + r) (k + r) tol2)
+        = mapVol 2 su sv sw P (fun c => knotRemoval p (fnOf V) c ub t (s + r) (k + r) tol2)) :=
+  ⟨fun h hkn => volU_rows_removable p d V P Q ub r t s k su sv sw tol2 hsu hsv hsw h htr hrs hpk hkn htol,
+   fun h hkn => volV_rows_removable p d V P Q ub r t s k su sv sw tol2 hsu hsv hsw h htr hrs hpk hkn htol,
+   fun h hkn => volW_rows_removable p d V P Q ub r t s k su sv sw tol2 hsu hsv hsw h htr hrs hpk hkn htol⟩
+
+/-- **A knot that is removable from the VOLUME is removable from every iso-curve of its direction** (u, v, w). -/
+theorem volume_removable_isocurves_removable (pu pv pw d : ℕ) (U1 U2 U3 : List K) (P Q : List (List K)) (ub : K)
+    (r s k su sv sw : ℕ) :
+    (VolRemovableU pu pv pw d U1 U2 U3 P Q ub r s k su sv sw → ∀ y z, y < sv → z < sw →
+      RemovableKnot pu d U1 ((List.range su).map (fun u => ptsGet P (y + sv * (u + su * z))))
+        ((List.range (su - r)).map (fun u => ptsGet Q (y + sv * (u + (su - r) * z)))) ub r s k) ∧
+    (VolRemovableV pu pv pw d U1 U2 U3 P Q ub r s k su sv sw → ∀ x z, x < su → z < sw →
+      RemovableKnot pv d U2 ((List.range sv).map (fun v => ptsGet P (v + sv * (x + su * z))))
+        ((List.range (sv - r)).map (fun v => ptsGet Q (v + (sv - r) * (x + su * z)))) ub r s k) ∧
+    (VolRemovableW pu pv pw d U1 U2 U3 P Q ub r s k su sv sw → ∀ x y, x < su → y < sv →
+      RemovableKnot pw d U3 ((List.range sw).map (fun w => ptsGet P (y + sv * (x + su * w))))
+        ((List.range (sw - r)).map (fun w => ptsGet Q (y + sv * (x + su * w)))) ub r s k) :=
+  ⟨fun h y z hy hz => h.isocurves y z hy hz, fun h x z hx hz => h.isocurves x z hx hz,
+   fun h x y hx hy => h.isocurves x y hx hy⟩
+
+/-- **Volumes, whenever removable at all (as a volume)**: in each direction, the per-iso-curve model AND the rows
+    branch the code runs return EXACTLY the witness net and the reduced size – any tolerance `tol2 ≥ 0`. -/
+theorem volume_remove_knot_removable_from_volume (pu pv pw d : ℕ) (U1 U2 U3 : List K) (P Q : List (List K)) (ub : K)
+    (r s k su sv sw : ℕ) (tol2 : K) (htol : 0 ≤ tol2) :
+    (VolRemovableU pu pv pw d U1 U2 U3 P Q ub r s k su sv sw →
+      mapVol 0 su sv sw P (fun c => knotRemoval pu (fnOf U1) c ub r (s + r) (k + r) tol2) = (Q, su - r) ∧
+      mapVolRows 0 su sv sw P (fun R => knotRemovalRows pu (fnOf U1) R ub r (s + r) (k + r) tol2) = (Q, su - r)) ∧
+    (VolRemovableV pu pv pw d U1 U2 U3 P Q ub r s k su sv sw →
+      mapVol 1 su sv sw P (fun c => knotRemoval pv (fnOf U2) c ub r (s + r) (k + r) tol2) = (Q, sv - r) ∧
+      mapVolRows 1 su sv sw P (fun R => knotRemovalRows pv (fnOf U2) R ub r (s + r) (k + r) tol2) = (Q, sv - r)) ∧
+    (VolRemovableW pu pv pw d U1 U2 U3 P Q ub r s k su sv sw →
+      mapVol 2 su sv sw P (fun c => knotRemoval pw (fnOf U3) c ub r (s + r) (k + r) tol2) = (Q, sw - r) ∧
+      mapVolRows 2 su sv sw P (fun R => knotRemovalRows pw (fnOf U3) R ub r (s + r) (k + r) tol2) = (Q, sw - r)) :=
+  ⟨fun h => ⟨h.exact tol2 htol, h.rows_exact tol2 htol⟩, fun h => ⟨h.exact tol2 htol, h.rows_exact tol2 htol⟩,
+   fun h => ⟨h.exact tol2 htol, h.rows_exact tol2 htol⟩⟩
+
+/-! ### object level: `operations.remove_knot` on a surface / volume `Shape`, the library's own searches -/
+
+/-- **A removable knot of a surface was inserted**: if `ub` is removable `r` times from direction `dir` of the surface
+    object `S` (witness `T`), then `S` IS the object `operations.insert_knot` produces from `T` – whatever produced
+    the net of `S`. -/
+theorem surface_removable_knot_is_inserted (d : ℕ) (S T : Shape K) (dir : ℕ) (ub : K) (r : ℕ) (tol : K)
+    (h : SurfRemovableObj d S T dir ub r tol) : S = insDirOf T dir ub r tol :=
+  h.is_inserted
+
+/-- **Object level, surfaces, whenever removable at all**: `operations.remove_knot` on `S` – one requested direction,
+    span and multiplicity found by the library's own searches on `S`, either setting of `check`, any `tol2 ≥ 0` –
+    with count `t = nums[dir]`, `1 ≤ t ≤ r`, returns the object of `r - t` insertions of `ub` into the witness `T` and
+    reports success; for `t = r` it returns `T` itself. -/
+theorem surface_remove_removable_knot_object (d : ℕ) (S T : Shape K) (dir : ℕ) (ub : K) (r : ℕ) (tol : K)
+    (h : SurfRemovableObj d S T dir ub r tol) (params : List (Option K)) (nums : List ℕ) (tol2 : K) (check : Bool)
+    (ho : OnlyDir dir params nums) (hp : params.getD dir none = some ub) (h2 : 0 ≤ tol2)
+    (ht1 : 1 ≤ nums.getD dir 0) (htr : nums.getD dir 0 ≤ r) :
+    removeKnot S params nums tol tol2 check = (insDirOf T dir ub (r - nums.getD dir 0) tol, true) ∧
+    (nums.getD dir 0 = r → removeKnot S params nums tol tol2 check = (T, true)) :=
+  h.removeKnot params nums tol2 check ho hp h2 ht1 htr
+
+/-- **… and the evaluated points are unchanged**: at every parameter pair of the closed domain the surface after the
+    removal has the point of the witness `T` (which on the half-open domain is the point of `S`). -/
+theorem surface_remove_removable_knot_object_points (d : ℕ) (S T : Shape K) (dir : ℕ) (ub : K) (r : ℕ) (tol : K)
+    (h : SurfRemovableObj d S T dir ub r tol) (params : List (Option K)) (nums : List ℕ) (tol2 : K) (check : Bool)
+    (ho : OnlyDir dir params nums) (hp : params.getD dir none = some ub) (h2 : 0 ≤ tol2)
+    (ht1 : 1 ≤ nums.getD dir 0) (htr : nums.getD dir 0 ≤ r)
+    (u v : K) (hu1 : fnOf (T.kv 0) (T.deg 0) ≤ u) (hu2 : u ≤ fnOf (T.kv 0) (T.size 0))
+    (hv1 : fnOf (T.kv 1) (T.deg 1) ≤ v) (hv2 : v ≤ fnOf (T.kv 1) (T.size 1)) (j : ℕ) :
+    (surfEval (removeKnot S params nums tol tol2 check).1 u v).getD j 0 = (surfEval T u v).getD j 0 :=
+  h.removeKnot_points params nums tol2 check ho hp h2 ht1 htr u v hu1 hu2 hv1 hv2 j
+
+/-- **A removable knot of a volume was inserted.** -/
+theorem volume_removable_knot_is_inserted (d : ℕ) (S T : Shape K) (dir : ℕ) (ub : K) (r : ℕ) (tol : K)
+    (h : VolRemovableObj d S T dir ub r tol) : S = insDirOf T dir ub r tol :=
+  h.is_inserted
+
+/-- **Object level, volumes, whenever removable at all** (the per-iso-curve model `removeKnot`). -/
+theorem volume_remove_removable_knot_object (d : ℕ) (S T : Shape K) (dir : ℕ) (ub : K) (r : ℕ) (tol : K)
+    (h : VolRemovableObj d S T dir ub r tol) (params : List (Option K)) (nums : List ℕ) (tol2 : K) (check : Bool)
+    (ho : OnlyDir dir params nums) (hp : params.getD dir none = some ub) (h2 : 0 ≤ tol2)
+    (ht1 : 1 ≤ nums.getD dir 0) (htr : nums.getD dir 0 ≤ r) :
+    removeKnot S params nums tol tol2 check = (insDirOf T dir ub (r - nums.getD dir 0) tol, true) ∧
+    (nums.getD dir 0 = r → removeKnot S params nums tol tol2 check = (T, true)) :=
+  h.removeKnot params nums tol2 check ho hp h2 ht1 htr
+
+/-- **… evaluated points unchanged.** -/
+theorem volume_remove_removable_knot_object_points (d : ℕ) (S T : Shape K) (dir : ℕ) (ub : K) (r : ℕ) (tol : K)
+    (h : VolRemovableObj d S T dir ub r tol) (params : List (Option K)) (nums : List ℕ) (tol2 : K) (check : Bool)
+    (ho : OnlyDir dir params nums) (hp : params.getD dir none = some ub) (h2 : 0 ≤ tol2)
+    (ht1 : 1 ≤ nums.getD dir 0) (htr : nums.getD dir 0 ≤ r)
+    (u v w : K) (hu1 : fnOf (T.kv 0) (T.deg 0) ≤ u) (hu2 : u ≤ fnOf (T.kv 0) (T.size 0))
+    (hv1 : fnOf (T.kv 1) (T.deg 1) ≤ v) (hv2 : v ≤ fnOf (T.kv 1) (T.size 1))
+    (hw1 : fnOf (T.kv 2) (T.deg 2) ≤ w) (hw2 : w ≤ fnOf (T.kv 2) (T.size 2)) (j : ℕ) :
+    (volEval (removeKnot S params nums tol tol2 check).1 u v w).getD j 0 = (volEval T u v w).getD j 0 :=
+  h.removeKnot_points params nums tol2 check ho hp h2 ht1 htr u v w hu1 hu2 hv1 hv2 hw1 hw2 j
+
+/-- **… one direction of `operations.remove_knot` on the volume object AS THE CODE COMPUTES IT** (`removeKnotVolRows`:
+    the rows branch, one flag per step from the first iso-curve; the library's own searches): count `1 ≤ t ≤ r` gives
+    the object of `r - t` insertions into `T`, `t = r` gives `T`. -/
+theorem volume_remove_removable_knot_object_rows (d : ℕ) (S T : Shape K) (dir : ℕ) (ub : K) (r : ℕ) (tol : K)
+    (h : VolRemovableObj d S T dir ub r tol) (t : ℕ) (tol2 : K) (check : Bool) (h2 : 0 ≤ tol2) (ht1 : 1 ≤ t) (htr : t ≤ r) :
+    removeKnotVolRows S dir ub t tol tol2 check = some (insDirOf T dir ub (r - t) tol) ∧
+    (t = r → removeKnotVolRows S dir ub t tol tol2 check = some T) :=
+  h.removeKnotVolRows t tol2 check h2 ht1 htr
+
+/-- **The object-level hypotheses from the knot vector of the surface AT HAND** (as in `RemovableKnot`): direction
+    `dir` of `S` holds `ub` at the positions `k-s+1 .. k+r` (`KnotRun`: sorted, `1 ≤ r`, `r + s ≤ p ≤ k`, `k + r < n`, no
+    basis function vanishing on the domain, the reduced knot vector well formed), the witness `T` has that knot vector
+    with `r` copies taken out (`knotRemovalKv`), `r` control points less in that direction and is otherwise like `S`,
+    the multiplicity search with tolerance `tol ≥ 0` finds the true multiplicity `s` on the reduced knot vector, and
+    `T` has the points of `S` on the half-open domain. -/
+theorem surface_removable_object_of_knot_positions (d : ℕ) (S T : Shape K) (dir : ℕ) (ub tol : K) (r s k : ℕ)
+    (hS : SurfWF d S) (hT : SurfWF d T) (hdir : dir < 2) (hrat : S.rat = T.rat) (hdegs : T.degs = S.degs)
+    (hkvs : T.kvs = S.kvs.set dir (knotRemovalKv (S.kv dir) (k + r) r))
+    (hsizes : T.sizes = S.sizes.set dir (S.size dir - r))
+    (h : KnotRun (S.deg dir) (S.kv dir) (S.size dir) ub r s k) (htol : 0 ≤ tol)
+    (hfm : findMultiplicity ub (knotRemovalKv (S.kv dir) (k + r) r) tol = s)
+    (hact0 : AllActive (S.deg 0) (S.size 0) (fnOf (S.kv 0))) (hact1 : AllActive (S.deg 1) (S.size 1) (fnOf (S.kv 1)))
+    (hsame : ∀ u v, fnOf (S.kv 0) (S.deg 0) ≤ u → u < fnOf (S.kv 0) (S.size 0) →
+      fnOf (S.kv 1) (S.deg 1) ≤ v → v < fnOf (S.kv 1) (S.size 1) → ∀ j,
+      (surfEval T u v).getD j 0 = (surfEval S u v).getD j 0) :
+    SurfRemovableObj d S T dir ub r tol :=
+  SurfRemovableObj.of_knotRun d S T dir ub tol r s k hS hT hdir hrat hdegs hkvs hsizes h htol hfm hact0 hact1 hsame
+
+/-- **… volumes.** -/
+theorem volume_removable_object_of_knot_positions (d : ℕ) (S T : Shape K) (dir : ℕ) (ub tol : K) (r s k : ℕ)
+    (hS : VolWF d S) (hT : VolWF d T) (hdir : dir < 3) (hrat : S.rat = T.rat) (hdegs : T.degs = S.degs)
+    (hkvs : T.kvs = S.kvs.set dir (knotRemovalKv (S.kv dir) (k + r) r))
+    (hsizes : T.sizes = S.sizes.set dir (S.size dir - r))
+    (h : KnotRun (S.deg dir) (S.kv dir) (S.size dir) ub r s k) (htol : 0 ≤ tol)
+    (hfm : findMultiplicity ub (knotRemovalKv (S.kv dir) (k + r) r) tol = s)
+    (hact0 : AllActive (S.deg 0) (S.size 0) (fnOf (S.kv 0))) (hact1 : AllActive (S.deg 1) (S.size 1) (fnOf (S.kv 1)))
+    (hact2 : AllActive (S.deg 2) (S.size 2) (fnOf (S.kv 2)))
+    (hsame : ∀ u v w, fnOf (S.kv 0) (S.deg 0) ≤ u → u < fnOf (S.kv 0) (S.size 0) →
+      fnOf (S.kv 1) (S.deg 1) ≤ v → v < fnOf (S.kv 1) (S.size 1) →
+      fnOf (S.kv 2) (S.deg 2) ≤ w → w < fnOf (S.kv 2) (S.size 2) → ∀ j,
+      (volEval T u v w).getD j 0 = (volEval S u v w).getD j 0) :
+    VolRemovableObj d S T dir ub r tol :=
+  VolRemovableObj.of_knotRun d S T dir ub tol r s k hS hT hdir hrat hdegs hkvs hsizes h htol hfm hact0 hact1 hact2 hsame
+
+/-! ### `AllActive` and knot insertion -/
+
+/-- **Knot insertion preserves `AllActive`**: sorted knots, `ub` in the span `k` (`U_k ≤ ub < U_{k+1}`, `p ≤ k < n`)
+    with `s` earlier copies (`U_{k-s} < ub`), `r + s ≤ p`, and `ub` strictly right of the left end of the domain
+    (`U_p < ub`): if no basis function of `U` vanishes on the whole domain, none of the refined knot vector does. -/
+theorem insertion_preserves_allActive (p n : ℕ) (U : List K) (ub : K) (k r s : ℕ) (hm : Monotone (fnOf U))
+    (hk1 : k + 1 < U.length) (hact : AllActive p n (fnOf U)) (hk : fnOf U k ≤ ub) (hbelow : fnOf U (k - s) < ub)
+    (habove : ub < fnOf U (k + 1)) (hlo : fnOf U p < ub) (hrs : r + s ≤ p) (hpk : p ≤ k) (hkn : k < n) :
+    AllActive p (n + r) (fnOf (knotInsertionKv U ub k r)) :=
+  allActive_insert p n U ub k r s hm hk1 hact hk hbelow habove hlo hrs hpk hkn
+
+/-- the proviso `U_p < ub` cannot be dropped for unclamped knot vectors: knots `0,1,2,3,4,5`, `p = 2`, `n = 3`
+    (domain `[2,3)`) is `AllActive`; after inserting `2 = U_p` once the first basis function lives on `[0,2)` -/
+theorem insertion_preserves_allActive_needs_interior :
+    AllActive 2 3 (fnOf ([0,1,2,3,4,5] : List ℚ)) ∧
+      ¬ AllActive 2 (3 + 1) (fnOf (knotInsertionKv ([0,1,2,3,4,5] : List ℚ) 2 2 1)) :=
+  allActive_insert_needs_interior
+
+/-- **`RemovableKnot` with the activity hypothesis on the REDUCED knot vector**: the fields of `RemovableKnot` other
+    than `active`, `AllActive` for the knot vector with the `r` copies taken out, and `U_p < ub`. -/
+theorem removableKnot_of_reduced_active (p d : ℕ) (V : List K) (Ph Q : List (List K)) (ub : K) (r s k : ℕ)
+    (hwf : CurveWF p d V Ph) (hrun : ∀ x, k - s < x → x ≤ k + r → fnOf V x = ub)
+    (hbelow : fnOf V (k - s) < ub) (habove : ub < fnOf V (k + r + 1))
+    (hr1 : 1 ≤ r) (hrs : r + s ≤ p) (hpk : p ≤ k) (hkn : k + r < Ph.length)
+    (hQ : CurveWF p d (knotRemovalKv V (k + r) r) Q)
+    (hactQ : AllActive p Q.length (fnOf (knotRemovalKv V (k + r) r))) (hlo : fnOf V p < ub)
+    (hsame : ∀ u, fnOf V p ≤ u → u < fnOf V Ph.length → ∀ j,
+      (curvePoint p (fnOf (knotRemovalKv V (k + r) r)) Q u).getD j 0 = (curvePoint p (fnOf V) Ph u).getD j 0) :
+    RemovableKnot p d V Ph Q ub r s k :=
+  RemovableKnot.of_reduced_active p d V Ph Q ub r s k hwf hrun hbelow habove hr1 hrs hpk hkn hQ hactQ hlo hsame
+
+/-! ### non-vacuity of section (T) -/
+
+/-- the explicit `2 × 6` surface over the v knots `0,0,0,¼,¼,½,1,1,1` (`exSurfRefQ`, Lemmas/UniqueTensorExample.lean):
+    `¼` (positions 3, 4: `k = 2`, `s = 0`, `r = 2`) is removable from it AS A SURFACE, witness the `2 × 4` net of
+    `exSurfQ` – every field discharged, the equality of the surface points by C04 … -/
+example : SurfRemovableV 1 2 3 ([0,0,1,1] : List ℚ) [0,0,0,1/4,1/4,1/2,1,1,1] exSurfRefQ.net exSurfQ.net (1/4) 2 0 2 2 6 :=
+  exSurf_removableV
+
+/-- … so every row is a removable curve and the v-direction removal returns the witness net -/
+example : mapSurfV 2 6 exSurfRefQ.net (fun c => knotRemoval 2 (fnOf ([0,0,0,1/4,1/4,1/2,1,1,1] : List ℚ)) c (1/4) 2 (0 + 2) (2 + 2) 0)
+    = (exSurfQ.net, 6 - 2) :=
+  surface_v_remove_knot_removable_from_surface 1 2 3 _ _ _ _ (1/4) 2 0 2 2 6 0 exSurf_removableV (le_refl _)
+
+/-- the same surface as an object: all hypotheses of the object-level theorem … -/
+example : SurfRemovableObj 3 exSurfRefQ exSurfQ 1 (1/4) 2 (1/10000000) := exSurfRefQ_removable
+
+/-- … and the same hypotheses obtained from the knot positions on the surface at hand (`k = 2`, `s = 0`, `r = 2`) -/
+example : SurfRemovableObj 3 exSurfRefQ exSurfQ 1 (1/4) 2 (1/10000000) :=
+  surface_removable_object_of_knot_positions 3 exSurfRefQ exSurfQ 1 (1/4) (1/10000000) 2 0 2 exSurfRefQ_wf exSurfQ_wf (by decide)
+    rfl rfl (by decide +kernel) (by decide +kernel) exSurf_removableV.knotRun (by norm_num) (by decide +kernel)
+    (by decide +kernel) (by decide +kernel) exSurfRefQ_removable.same
+
+/-- … removing ONE of the two copies (t = 1 < r = 2) and both copies, with the library's searches -/
+example : removeKnot exSurfRefQ [none, some (1/4)] [0, 1] (1/10000000) 0 true = (insDirOf exSurfQ 1 (1/4) (2 - 1) (1/10000000), true) ∧
+    removeKnot exSurfRefQ [none, some (1/4)] [0, 2] (1/10000000) 0 true = (exSurfQ, true) := by
+  have ho : ∀ n : ℕ, OnlyDir 1 ([none, some (1/4)] : List (Option ℚ)) [0, n] := by
+    intro n d' hd
+    rcases d' with _ | _ | d'
+    · left; rfl
+    · exact absurd rfl hd
+    · left; rfl
+  exact ⟨(surface_remove_removable_knot_object 3 _ _ 1 (1/4) 2 _ exSurfRefQ_removable _ [0, 1] 0 true (ho 1) rfl (le_refl _)
+      (by decide) (by decide)).1,
+    (surface_remove_removable_knot_object 3 _ _ 1 (1/4) 2 _ exSurfRefQ_removable _ [0, 2] 0 true (ho 2) rfl (le_refl _)
+      (by decide) (by decide)).2 rfl⟩
+
+/-- the explicit `2 × 2 × 5` volume over the w knots `0,0,0,½,½,1,1,1` (`exVolRefQ`): one copy of `½` (`k = 3`, `s = 1`,
+    `r = 1`) is removable from it AS A VOLUME, witness the net of `exVolQ` … -/
+example : VolRemovableW 1 1 2 3 ([0,0,1,1] : List ℚ) [0,0,1,1] [0,0,0,1/2,1/2,1,1,1] exVolRefQ.net exVolQ.net (1/2) 1 1 3 2 2 5 :=
+  exVol_removableW
+
+/-- … the rows branch (what the code runs) returns the witness net … -/
+example : mapVolRows 2 2 2 5 exVolRefQ.net
+    (fun R => knotRemovalRows 2 (fnOf ([0,0,0,1/2,1/2,1,1,1] : List ℚ)) R (1/2) 1 (1 + 1) (3 + 1) 0) = (exVolQ.net, 5 - 1) :=
+  ((volume_remove_knot_removable_from_volume 1 1 2 3 _ _ _ _ _ (1/2) 1 1 3 2 2 5 0 (le_refl _)).2.2 exVol_removableW).2
+
+/-- … and at object level -/
+example : VolRemovableObj 3 exVolRefQ exVolQ 2 (1/2) 1 (1/10000000) := exVolRefQ_removable
+
+example : removeKnotVolRows exVolRefQ 2 (1/2) 1 (1/10000000) 0 true = some exVolQ :=
+  (volume_remove_removable_knot_object_rows 3 _ _ 2 (1/2) 1 _ exVolRefQ_removable 1 0 true (le_refl _) (le_refl _) (le_refl _)).2 rfl
+
+/-- the hypotheses of `insertion_preserves_allActive` on the clamped quadratic knots `0,0,0,½,1,1,1`, `ub = ¼` twice -/
+example : AllActive 2 (4 + 2) (fnOf (knotInsertionKv ([0,0,0,1/2,1,1,1] : List ℚ) (1/4) 2 2)) :=
+  insertion_preserves_allActive 2 4 _ (1/4) 2 2 0 (mono_of_pairwise _ (by decide +kernel)) (by decide) (by decide +kernel)
+    (by decide +kernel) (by decide +kernel) (by decide +kernel) (by decide +kernel) (by decide) (by decide) (by decide)
+
 
 end C06
